@@ -12,6 +12,8 @@ package main
 
 import (
 	"fmt"
+	"sync/atomic"
+	"time"
 
 	dmdec "github.com/makiuchi-d/gozxing/datamatrix/decoder"
 	dmenc "github.com/makiuchi-d/gozxing/datamatrix/encoder"
@@ -112,4 +114,66 @@ func c02SymSuite(c *Ctx) {
 			}
 		}
 	}
+}
+
+// c02TerminationSweep: termination of the dispatch loop of EncodeHighLevel is not a theorem (the look-ahead may
+// ask for a latch whose encoder call consumes nothing; see Properties/C02.lean `dm_terminates…`).  This sweep runs
+// the REAL EncodeHighLevel under the watchdog on EVERY string of length ≤ 5 (quick) / ≤ 6 (thorough) over one
+// representative of each character class the look-ahead and the encoders distinguish (incl. the characters whose
+// C40/Text value count is 1, 2, 3 and 4 — the end-of-message backtracking depends on it), with and without a
+// macro 05 envelope for the shorter ones, and checks the codeword-level read-back.
+func c02TerminationSweep(c *Ctx, wd time.Duration) {
+	reps := []byte{'5', ' ', 'K', 'k', 13, '*', '!', 1, '`', 0xE9, 0xC1, 0xB0, 0x8D}
+	maxLen := c.Pick(5, 6)
+	type job struct{ prefix []byte }
+	var jobs []job
+	for _, a := range reps {
+		for _, b := range reps {
+			jobs = append(jobs, job{[]byte{a, b}})
+		}
+	}
+	var hangs, total int64
+	c.Parallel(len(jobs), 16, func(i int, _ *Rng) {
+		var rec func(m []byte)
+		try := func(m []byte) {
+			atomic.AddInt64(&total, 1)
+			msg := append([]byte(nil), m...)
+			out := SafeT(wd, func() string {
+				cw, e := dmenc.EncodeHighLevel(c02ToString(msg), dmenc.SymbolShapeHint_FORCE_NONE, nil, nil)
+				if e != nil {
+					return "ERR:" + errKind(e)
+				}
+				dr, e := dmdec.DecodedBitStreamParser_decode(append([]byte(nil), cw...))
+				if e != nil {
+					return "DEC-ERR:" + errKind(e)
+				}
+				l1, _ := c02Latin1(dr.GetText())
+				return l1
+			})
+			if out == "TIMEOUT" {
+				atomic.AddInt64(&hangs, 1)
+				c.Oracle("dm-term", false, "dm-encode-hang", "text="+hexs(msg), "EncodeHighLevel did not return within the watchdog (exhaustive short-string sweep)")
+			} else if out != hexs(msg) {
+				c.Oracle("dm-term", false, "dm-hl-roundtrip", "text="+hexs(msg), "exhaustive short-string sweep: EncodeHighLevel -> DecodedBitStreamParser_decode gave "+c08Short(out))
+			}
+		}
+		rec = func(m []byte) {
+			try(m)
+			if len(m) <= 4 {
+				try(append(append([]byte("[)>\x1e05\x1d"), m...), 0x1e, 0x04))
+			}
+			if len(m) == maxLen {
+				return
+			}
+			for _, a := range reps {
+				rec(append(m, a))
+			}
+		}
+		if i < len(reps) { // the one-character strings
+			try([]byte{reps[i]})
+		}
+		rec(jobs[i].prefix)
+	})
+	c.NoteN("dm-term:strings-swept", int(total))
+	c.NoteN("dm-term:hangs", int(hangs))
 }
